@@ -90,14 +90,16 @@ def run_histories(state, info, rng, n_hist, length, log):
                         acc = rng.random() < 0.5
                         hist.append(("put", n, idx, acc))
                         st.put(n, delta, indices=idx, accumulate=acc)
-                    pending_partial = n if n in info["ind_vars"] else None
+                    pending_partial = n if (n in info["ind_vars"] and st.auto_fork_type is not None) else None
                     if pending_partial is None:
                         pass
                 elif op == "revert":
-                    if st._last_fork is not None:
-                        hist.append(("revert",))
-                        st.revert()
-                        pending_partial = None
+                    hist.append(("revert",))
+                    try:
+                        st.revert()      # allowed at any time: either restores the last assignment or is refused
+                    except LeaspyInputError:
+                        hist[-1] = ("revert (refused: no fork)",)
+                    pending_partial = None
                 elif op == "partial":
                     if st._last_fork is not None and pending_partial:
                         mask = torch.rand(info["n_ind"]) < 0.5
